@@ -376,9 +376,9 @@ func mergeArgs(a, b map[string]interface{}) map[string]interface{} {
 }
 
 func run(c *core.Child) {
-	nSchemas := c.Scale(3, 16)
-	nHist := c.Scale(12, 40)
-	histLen := c.Scale(50, 300)
+	nSchemas := c.Scale(3, 6)
+	nHist := c.Scale(12, 30)
+	histLen := c.Scale(50, 150)
 	for si := 0; si < nSchemas; si++ {
 		sr := c.RNG(1, uint64(si))
 		m := schemagen.Gen(sr, schemagen.DefaultOptions(sr))
